@@ -107,7 +107,7 @@ def parseOps : Nat → List Tok → List Tok → Option (List Op)
       match rest with
       | v :: r =>
         let rep : Option Tok :=
-          if ['0', 'x'].isPrefixOf v then some (v.drop 2) else (decVal? v).map hexStr
+          if ['0', 'x'].isPrefixOf v then (hexVal? v).map hexStr else (decVal? v).map hexStr
         rep.bind fun x => (parseOps fuel r tbl).map (⟨sPUSH, .str x⟩ :: ·)
       | [] => none
     else
